@@ -1,4 +1,5 @@
 import NbdimeModel
+import NbdimeProofs.Lemmas.Resolve
 /-
   C05 / C10 — laws of the decision applier (NbdimeModel/Apply.lean) that the merge laws rest on:
   * no decisions: the merge is the identity;
@@ -29,7 +30,20 @@ def Symmetric (d : Decision) : Prop :=
 theorem resolveAction_swap (base : J) (d : Decision) (h : Symmetric d) :
     resolveAction base (swapDecision d) = resolveAction base d := by
   obtain ⟨he, hc, hr, ht⟩ := h
-  unfold resolveAction swapDecision swapAction
+  have hk : d.keyBased = false := keyBased_false_of d hc hr ht
+  have hk' : (swapDecision d).keyBased = false := by
+    unfold Decision.keyBased swapDecision swapAction
+    by_cases h1 : d.action = "local"
+    · simp [h1]
+    by_cases h2 : d.action = "remote"
+    · simp [h2]
+    by_cases h3 : d.action = "local_then_remote"
+    · simp [h3]
+    by_cases h4 : d.action = "remote_then_local"
+    · simp [h4]
+    simp [h1, h2, h3, h4, hc, hr, ht]
+  rw [resolveAction_leaf _ _ hk, resolveAction_leaf _ _ hk']
+  unfold resolveLeaf swapDecision swapAction
   by_cases h1 : d.action = "local"
   · simp [h1]
   by_cases h2 : d.action = "remote"
